@@ -6,6 +6,7 @@ import (
 	"fmt"
 	"math"
 	"reflect"
+	"regexp"
 	"strings"
 	"sync"
 
@@ -262,6 +263,9 @@ func runC12(c *core.Ctx) {
 	}
 	c12NonJSONNumbers(c, modes, atoms)
 	c12Directional(c)
+	if c.Shard == 0 {
+		c12CustomCompilerModes(c)
+	}
 	n := c.Pick(15000, 600000)
 	r := c.Rng("random-schemas")
 	for i := 0; i < n; i++ {
@@ -698,6 +702,16 @@ func c12Directional(c *core.Ctx) {
 				gen.S{"allOf": gen.Arr(obj, gen.S{"type": "object"})}, gen.S{"oneOf": gen.Arr(obj, gen.S{"type": "string"})}, gen.S{"anyOf": gen.Arr(obj, gen.S{"type": "object", "required": gen.Arr("zz")})})
 		}
 	}
+	// defaults that do not satisfy their own schema, or a default object lacking a required member: the error is made
+	// while the default is in the value, and its pointer must resolve in the value the caller holds afterwards
+	nDefaultSchemas := len(schemas)
+	paging := gen.S{"type": "object", "default": gen.S{}, "required": gen.Arr("size"), "properties": gen.S{"size": gen.S{"type": "integer"}}}
+	limit := gen.S{"type": "integer", "default": 1000.0, "maximum": 100.0}
+	deep := gen.S{"type": "object", "default": gen.S{"inner": gen.S{}}, "properties": gen.S{"inner": gen.S{"type": "object", "required": gen.Arr("k"), "properties": gen.S{"k": gen.S{"type": "string"}}}}}
+	for _, p := range []gen.S{{"paging": paging}, {"limit": limit}, {"deep": deep}, {"paging": paging, "limit": limit, "b": gen.S{"type": "string"}}} {
+		obj := gen.S{"type": "object", "properties": p}
+		schemas = append(schemas, obj, gen.S{"type": "array", "items": obj}, gen.S{"type": "object", "properties": gen.S{"n": obj}, "required": gen.Arr("n")}, gen.S{"allOf": gen.Arr(obj, gen.S{"type": "object"})})
+	}
 	inner := []any{gen.S{}, gen.S{"a": 1.0}, gen.S{"b": "x"}, gen.S{"a": 1.0, "b": "x"}, gen.S{"a": "bad"}, gen.S{"a": nil}, gen.S{"a": 1.0, "b": 2.0}}
 	var values []any
 	for _, v := range inner {
@@ -729,12 +743,25 @@ func c12Directional(c *core.Ctx) {
 				base := false
 				for vi, vr := range variants {
 					opts := append([]openapi3.SchemaValidationOption{d.opt}, vr.opts...)
+					if si >= nDefaultSchemas {
+						opts = append(opts, openapi3.DefaultsSet(func() {}))
+					}
 					kv := gen.CloneValue(v)
 					var verr error
 					c.Eval()
 					if pi := core.Guard(func() { verr = sc.VisitJSON(kv, opts...) }); pi != nil {
 						c12ReportPanic(c, s, "", v, d.name, vr.name, pi)
 						continue
+					}
+					if si >= nDefaultSchemas && verr != nil {
+						// every schema error handed out points into the value as the caller holds it now
+						for _, se := range topSchemaErrors(verr) {
+							if se.SchemaField == "readOnly" || se.SchemaField == "writeOnly" {
+								continue
+							}
+							c12CheckPointer(c, s, "", v, kv, d.name+"+DefaultsSet", vr.name, se)
+							c.Cover("directional", "pointer checked with defaults injected")
+						}
 					}
 					acc := verr == nil
 					if vi == 0 {
@@ -746,6 +773,71 @@ func c12Directional(c *core.Ctx) {
 					c.Cover("directional", d.name+"/"+vr.name+"/"+map[bool]string{true: "accept", false: "reject"}[acc])
 				}
 				c.Distinct("directional\x00" + desc)
+			}
+		}
+	}
+}
+
+// c12CustomCompilerModes: a caller-supplied regexp compiler (case-insensitive matching) is an option like the others: with
+// it, default, fail-fast, multi-error, customised and their combinations give one verdict, wherever the pattern sits
+// (under not, anyOf, oneOf, allOf, properties, items, additionalProperties, nested twice).
+func c12CustomCompilerModes(c *core.Ctx) {
+	ci := openapi3.SetSchemaRegexCompiler(func(expr string) (openapi3.RegexMatcher, error) { return regexp.Compile("(?i)" + expr) })
+	pat := gen.S{"type": "string", "pattern": "^c12-[a-z]+$"}
+	other := gen.S{"type": "integer"}
+	wraps := map[string]gen.S{
+		"plain":                pat,
+		"not":                  {"not": pat},
+		"anyOf":                {"anyOf": gen.Arr(pat, other)},
+		"oneOf":                {"oneOf": gen.Arr(pat, other)},
+		"allOf":                {"allOf": gen.Arr(pat, gen.S{"type": "string"})},
+		"properties":           {"type": "object", "properties": gen.S{"p": pat}},
+		"items":                {"type": "array", "items": pat},
+		"additionalProperties": {"type": "object", "additionalProperties": pat},
+		"not>anyOf":            {"not": gen.S{"anyOf": gen.Arr(pat, other)}},
+		"anyOf>not":            {"anyOf": gen.Arr(gen.S{"not": pat}, other)},
+		"properties>anyOf":     {"type": "object", "properties": gen.S{"p": gen.S{"anyOf": gen.Arr(pat, other)}}},
+		"items>not":            {"type": "array", "items": gen.S{"not": pat}},
+		"oneOf>allOf":          {"oneOf": gen.Arr(gen.S{"allOf": gen.Arr(pat)}, other)},
+	}
+	variants := []struct {
+		name string
+		opts []openapi3.SchemaValidationOption
+	}{{"default", nil}, {"failfast", []openapi3.SchemaValidationOption{openapi3.FailFast()}}, {"multi", []openapi3.SchemaValidationOption{openapi3.MultiErrors()}},
+		{"customizer", []openapi3.SchemaValidationOption{openapi3.SetSchemaErrorMessageCustomizer(customizer)}},
+		{"multi+failfast", []openapi3.SchemaValidationOption{openapi3.MultiErrors(), openapi3.FailFast()}},
+		{"failfast+customizer", []openapi3.SchemaValidationOption{openapi3.FailFast(), openapi3.SetSchemaErrorMessageCustomizer(customizer)}},
+		{"asRequest", []openapi3.SchemaValidationOption{openapi3.VisitAsRequest()}}, {"asResponse+failfast", []openapi3.SchemaValidationOption{openapi3.VisitAsResponse(), openapi3.FailFast()}}}
+	for _, name := range sortedKeys(map[string]any{"plain": 0, "not": 0, "anyOf": 0, "oneOf": 0, "allOf": 0, "properties": 0, "items": 0, "additionalProperties": 0, "not>anyOf": 0, "anyOf>not": 0, "properties>anyOf": 0, "items>not": 0, "oneOf>allOf": 0}) {
+		s := wraps[name]
+		sc, err := kinSchema(s)
+		if err != nil {
+			continue
+		}
+		for _, leaf := range []any{"c12-abc", "C12-ABC", "c12-ABC", "c12-123", 7.0, "zzz"} {
+			for _, v := range []any{leaf, gen.S{"p": leaf}, gen.Arr(leaf), gen.Arr(leaf, "c12-x"), gen.S{"q": leaf}} {
+				desc := fmt.Sprintf("custom compiler (?i) pattern under %s schema=%s value=%s", name, gen.Canon(s), gen.Canon(v))
+				c.BeginLazy(func() string { return desc })
+				base := false
+				for vi, vr := range variants {
+					opts := append([]openapi3.SchemaValidationOption{ci}, vr.opts...)
+					var verr error
+					c.Eval()
+					kv := gen.CloneValue(v)
+					if pi := core.Guard(func() { verr = sc.VisitJSON(kv, opts...) }); pi != nil {
+						c12ReportPanic(c, s, "", v, "custom-compiler", vr.name, pi)
+						continue
+					}
+					acc := verr == nil
+					if vi == 0 {
+						base = acc
+					} else if acc != base {
+						c.Violate(map[string]string{"kind": "verdict_differs_between_modes", "mode": "custom-compiler+" + vr.name, "value": "pattern under " + name}, c12W(s, "", v, "custom-compiler", vr.name),
+							fmt.Sprintf("%s\ndefault accept=%v, %s accept=%v (%v)", desc, base, vr.name, acc, verr))
+					}
+					c.Cover("custom_compiler_modes", vr.name+"/"+map[bool]string{true: "accept", false: "reject"}[acc])
+				}
+				c.Distinct("custom-compiler\x00" + desc)
 			}
 		}
 	}
